@@ -155,6 +155,20 @@ def opt_result_programs():
     #  the pinned max_by_key! evaluates its operands right to left)
     # min!/max! on primitives (u8 all pairs of a small set)
     P.append(("min!/max!(u8)", ["for a in [0u8, 1, 2, 255] { for b in [0u8, 1, 2, 255] { out.push((format!(\"min!({a},{b})\"), obs(|| konst::min!(a, b)), obs(|| a.min(b)))); out.push((format!(\"max!({a},{b})\"), obs(|| konst::max!(a, b)), obs(|| a.max(b)))); } }"]))
+    # every primitive integer type, every pair over a boundary set incl. both ends, the sign boundary and the middle of the range
+    # (round 15: a comparison that widened both operands to i128 and so mis-ordered u128 values >= 2^127); the by-key forms carry
+    # a tag so that the returned *argument* is visible when the keys compare equal
+    for ty in ["u8", "u16", "u32", "u64", "u128", "usize", "i8", "i16", "i32", "i64", "i128", "isize"]:
+        vals = f"[{ty}::MIN, {ty}::MIN + 1, 0, 1, {ty}::MAX / 2, {ty}::MAX / 2 + 1, {ty}::MAX - 1, {ty}::MAX" + (", -1, -2]" if ty[0] == "i" else "]")
+        P.append((f"min!/max!({ty})", [f"let vals: Vec<{ty}> = vec!{vals};",
+                  f"for &a in &vals {{ for &b in &vals {{ out.push((format!(\"min!({{a}}{ty}, {{b}}{ty})\"), obs(|| konst::min!(a, b)), obs(|| std::cmp::min(a, b)))); out.push((format!(\"max!({{a}}{ty}, {{b}}{ty})\"), obs(|| konst::max!(a, b)), obs(|| std::cmp::max(a, b)))); }} }}"]))
+        P.append((f"min_by_key!/max_by_key!(key: {ty})", ["#[derive(Debug, Clone, Copy, PartialEq)] struct Kx { key: " + ty + ", tag: u8 }", f"let vals: Vec<{ty}> = vec!{vals};",
+                  "for &ka in &vals { for &kb in &vals { let (a, b) = (Kx { key: ka, tag: 1 }, Kx { key: kb, tag: 2 });",
+                  f"    out.push((format!(\"min_by_key!(key {{ka}}{ty}, key {{kb}}{ty})\"), obs(|| konst::min_by_key!(a, b, |x| x.key)), obs(|| std::cmp::min_by_key(a, b, |x| x.key))));",
+                  f"    out.push((format!(\"max_by_key!(key {{ka}}{ty}, key {{kb}}{ty})\"), obs(|| konst::max_by_key!(a, b, |x| x.key)), obs(|| std::cmp::max_by_key(a, b, |x| x.key))));",
+                  f"    out.push((format!(\"min_by!(const_cmp!, key {{ka}}{ty}, key {{kb}}{ty})\"), obs(|| konst::min_by!(a, b, |l, r| konst::const_cmp!(l.key, r.key))), obs(|| std::cmp::min_by(a, b, |l, r| l.key.cmp(&r.key)))));",
+                  f"    out.push((format!(\"max_by!(const_cmp!, key {{ka}}{ty}, key {{kb}}{ty})\"), obs(|| konst::max_by!(a, b, |l, r| konst::const_cmp!(l.key, r.key))), obs(|| std::cmp::max_by(a, b, |l, r| l.key.cmp(&r.key)))));",
+                  "} }"]))
     return P
 
 
@@ -297,7 +311,7 @@ def run(tier, seed, drv):
     rep["distinct_nontrivial"] = nontriv
     rep["distinct_outcomes"] = sum(r["outcomes"] for r in res)
     rep["rule"] = ("program = one macro x argument form (closure / function path), executed on every value of its small input set next to the std method / `?` / std::cmp function; observation = returned value + number of fallback/closure calls (identity of the returned argument for min/max via a key-only ordering on (key,id) values); rebind: every arity 1..=6 x position kinds {place, let, let: T, _} (all assignments for arity <= 3 (thorough: <= 4), uniform + single-position variations above), both Ok and Err, plus places that depend on earlier components; a program rustc rejects is a violation (the property demands every listed form); non-trivial = programs with more than one distinct outcome")
-    rep["bounds"] = f"{len(allp)} programs; Option<u8> x {{None,Some(0),Some(1),Some(255)}}, Option<&str> x 3, Result<u8,&str> x 5, all 30 ordered pairs of 6 (key,id) values over keys 0..3"
+    rep["bounds"] = f"{len(allp)} programs; Option<u8> x {{None,Some(0),Some(1),Some(255)}}, Option<&str> x 3, Result<u8,&str> x 5, all 30 ordered pairs of 6 (key,id) values over keys 0..3; min!/max!/min_by_key!/max_by_key!/min_by!/max_by!(const_cmp!) over all pairs of 8-10 boundary values (MIN, MIN+1, 0, 1, MAX/2, MAX/2+1, MAX-1, MAX, -1, -2) of each of the 12 primitive integer types"
     rep["samples"] = [names[i] for i in list(names)[:4]] + [names[len(names) // 2], names[len(names) - 1]]
     rep["extra"] = {"programs": len(allp), "rejected_by_rustc": len(rejected), "disagreements_checked": len(viol)}
     return rep
